@@ -154,6 +154,18 @@ def _cmp_parts(test: ast.AST):
     return ast.unparse(l), op, r.value
 
 
+def _expand_flag(ctx, f, test: ast.AST, depth: int = 3) -> ast.AST:
+    """A test in which flags (locals bound once, stably, to a test) are replaced by the test they hold; `not` is looked through."""
+    if isinstance(test, ast.UnaryOp) and isinstance(test.op, ast.Not):
+        return ast.UnaryOp(op=ast.Not(), operand=_expand_flag(ctx, f, test.operand, depth))
+    if isinstance(test, ast.Name) and depth > 0 and comp_generator_of(test) is None:
+        dfs = ctx.rd(f).defs_reaching(test)
+        tv = assigned_value(dfs[0], test.id) if len(dfs) == 1 and not isinstance(dfs[0], ast.arguments) else None
+        if tv is not None and isinstance(tv, (ast.Compare, ast.UnaryOp, ast.Name, ast.BoolOp)) and alias_is_stable(ctx, f, dfs[0], test, tv):
+            return _expand_flag(ctx, f, tv, depth - 1)
+    return test
+
+
 def _ndim_test(test: ast.AST, arr: str) -> Optional[bool]:
     """True if the test holds exactly for arrays with more than one dimension, False if exactly for at most one dimension,
     None when it is neither (tests of `<arr>.ndim` / `len(<arr>.shape)` against a constant; `not` is looked through)."""
@@ -609,13 +621,7 @@ def r3_time_grid(ctx, rid):
                 nd = [a_ for a_ in ancestors(st) if isinstance(a_, ast.If) and not any(a_ is t_ for t_ in tops)]
                 two_d = None
                 for a_ in nd:
-                    test_ = a_.test
-                    if isinstance(test_, ast.Name):          # the dimension test may be held in a flag that is computed once
-                        dfs = ctx.rd(g).defs_reaching(test_)
-                        tv_ = assigned_value(dfs[0], test_.id) if len(dfs) == 1 and not isinstance(dfs[0], ast.arguments) else None
-                        if tv_ is not None and alias_is_stable(ctx, g, dfs[0], test_, tv_):
-                            test_ = tv_
-                    multi = _ndim_test(test_, p_inp)
+                    multi = _ndim_test(_expand_flag(ctx, g, a_.test), p_inp)
                     if multi is not None:
                         two_d = multi == any(contains(x, st) for x in a_.body)
                 if two_d is None:
